@@ -38,16 +38,99 @@ Section Features.
 
   Definition in_range (lo hi d : F) : bool := (d <=? hi) && (lo <=? d).
 
+  (** ** distance to the mid-oceanic ridge and spreading velocity (utilities.cc:1289-1479),
+      with the oceanic-plate arguments subducting_plate_velocities = {{0}}, ridge_migration_times = {0} *)
+  Definition seconds_in_year : F := fofZ 31557600.        (* 60*60*24*365.25 *)
+
+  Definition dist_same_depth (sph : bool) (p1 p2 : F * F * F) : F :=
+    if sph then great_circle_distance p1 p2
+    else let '(x1, y1, _) := p1 in let '(x2, y2, _) := p2 in
+         let dx := x1 - x2 in let dy := y1 - y2 in fsqrt ((dx * dx) + (dy * dy)).
+
+  Definition side_lt0 (t0 t1 p : pt2) : bool :=
+    (((fst t1 - fst t0) * (snd p - snd t0)) - ((snd t1 - snd t0) * (fst p - fst t0))) <? f0.
+
+  Definition pt_default : pt2 := (f0, f0).
+
+  (** index of the ridge on whose side of the transform faults the point lies *)
+  Fixpoint relevant_ridge (ridges : list (list pt2)) (cp : pt2) (i : nat) : nat :=
+    match ridges with
+    | r0 :: ((r1 :: _) as rest) =>
+        let tp0 := nth 0 r1 pt_default in
+        let tp1 := last r0 pt_default in
+        let ref := nth 0 r0 pt_default in
+        if Bool.eqb (side_lt0 tp0 tp1 ref) (side_lt0 tp0 tp1 cp) then i else relevant_ridge rest cp (S i)
+    | _ => i
+    end.
+
+  (** nearest point of one ridge segment, for the point and for its 2 pi alias: (distance, velocity) *)
+  Definition ridge_segment (sph : bool) (nat_min : F * F * F) (cp cp2 : pt2) (p0 p1 : pt2) (v0 v1 : F) : F * F :=
+    let vx := fst p1 - fst p0 in let vy := snd p1 - snd p0 in
+    let c := (vx * vx) + (vy * vy) in
+    let proj (q : pt2) : pt2 * F :=
+      let wx := fst q - fst p0 in let wy := snd q - snd p0 in
+      let c1 := (wx * vx) + (wy * vy) in
+      if c1 <=? f0 then (p0, v0)
+      else if c <=? c1 then (p1, v1)
+      else ((fst p0 + ((c1 / c) * vx), snd p0 + ((c1 / c) * vy)), v0 + ((v1 - v0) * (c1 / c))) in
+    let '(pb1, s1) := proj cp in
+    let '(pb2, s2) := proj cp2 in
+    let '(a, b, c3) := nat_min in
+    let cmp (pb : pt2) : F * F * F := if sph then (a, fst pb, snd pb) else (fst pb, snd pb, c3) in
+    let d1 := dist_same_depth sph nat_min (cmp pb1) in
+    let d2 := dist_same_depth sph nat_min (cmp pb2) in
+    if d2 <? d1 then (d2, s2) else (d1, s1).
+
+  Fixpoint ridge_scan (sph : bool) (nat_min : F * F * F) (cp cp2 : pt2) (pts : list pt2) (vels : list F)
+           (first : bool) (best : F * F) : F * F :=
+    match pts, vels with
+    | p0 :: ((p1 :: _) as rest), v0 :: ((v1 :: _) as vrest) =>
+        let '(d, s) := ridge_segment sph nat_min cp cp2 p0 p1 v0 v1 in
+        let best' := if first || (d <? fst best) then (d, s) else best in
+        ridge_scan sph nat_min cp cp2 rest vrest false best'
+    | _, _ => best
+    end.
+
+  (** returns (spreading velocity in m/s, distance to the ridge) *)
+  Definition ridge_distance_and_spreading (sph : bool) (ridges : list (list pt2)) (vels : list (list F))
+             (nat_min : F * F * F) : F * F :=
+    let '(a, b, c3) := nat_min in
+    let cp : pt2 := if sph then (b, c3) else (a, b) in
+    let cp2 : pt2 := if sph then (fst cp + (if fst cp <? f0 then f2 * fpi else (- f2) * fpi), snd cp) else cp in
+    let r := if Nat.ltb 1 (length (nth 0 ridges [])) then relevant_ridge ridges cp 0 else 0 in
+    let '(d, s) := ridge_scan sph nat_min cp cp2 (nth r ridges []) (nth r vels []) true (fdmax, f0) in
+    (s / seconds_in_year, d).
+
+  (** the query position moved to the top of the model: natural depth coordinate += depth - min depth *)
+  Definition nat_at_min_depth (sph : bool) (q : query) (min_depth : F) : F * F * F :=
+    let '(a, b, c3) := q_nat q in
+    if sph then (a + (q_depth q - min_depth), b, c3) else (a, b, c3 + (q_depth q - min_depth)).
+
   (** ** temperature models of area features *)
   Inductive temp_model :=
   | TUniform (mn mx : dsurf) (o : op) (T : F)
   | TLinear (mn mx : dsurf) (o : op) (top bottom : F)
   | TAdiabatic (mn mx : dsurf) (o : op) (Tp alpha cp : F)   (* sentinels resolved at parse time *)
-  | TChapman (mn mx : dsurf) (o : op) (k A q_top top : F).  (* continental plate only *)
+  | TChapman (mn mx : dsurf) (o : op) (k A q_top top : F)   (* continental plate only *)
+  (* oceanic plate only: *)
+  | THalfSpace (mn mx : dsurf) (o : op) (top bottom : F) (ridges : list (list pt2)) (vels : list (list F))
+  | TPlateModel (mn mx : dsurf) (o : op) (top bottom : F) (ridges : list (list pt2)) (vels : list (list F))
+  | TPlateConstAge (mn mx : dsurf) (o : op) (top bottom age_s : F).
 
   Definition tm_surfs (m : temp_model) : dsurf * dsurf :=
     match m with
-    | TUniform mn mx _ _ | TLinear mn mx _ _ _ | TAdiabatic mn mx _ _ _ _ | TChapman mn mx _ _ _ _ _ => (mn, mx)
+    | TUniform mn mx _ _ | TLinear mn mx _ _ _ | TAdiabatic mn mx _ _ _ _ | TChapman mn mx _ _ _ _ _
+    | THalfSpace mn mx _ _ _ _ _ | TPlateModel mn mx _ _ _ _ _ | TPlateConstAge mn mx _ _ _ _ => (mn, mx)
+    end.
+
+  (** the 100-term plate-model series; [expo i] is the argument of exp for term i *)
+  Fixpoint plate_series (n : nat) (i : nat) (dT depth max_depth : F) (expo : F -> F) (acc : F) : F :=
+    match n with
+    | O => acc
+    | S n' =>
+        let fi := fofZ (Z.of_nat i) in
+        let term := ((f2 / (fi * fpi)) * fsin (((fi * fpi) * depth) / max_depth)) * fexp (expo fi) in
+        plate_series n' (S i) dT depth max_depth expo (acc + (dT * term))
     end.
 
   Definition adiabat_g (g : globals) (grav depth : F) : F :=
@@ -69,17 +152,40 @@ Section Features.
             let mxll := fmin fmax_l mxl in
             let top_l := if top <? f0 then adiabat_g g (q_g q) mnll else top in
             let bot_l := if bottom <? f0 then adiabat_g g (q_g q) mxll else bottom in
-            let start := match k with Continental => mnl | _ => mnll end in
             let new := top_l + (if (mxll - mnll) <? (fofZ 10 * feps) then f0
-                                else (d - start) * ((bot_l - top_l) / (mxll - mnll))) in
+                                else (d - mnll) * ((bot_l - top_l) / (mxll - mnll))) in
             apply_op o old new
         | TAdiabatic _ _ o Tp alpha cp =>
             apply_op o old (Tp * fexp (((alpha * q_g q) / cp) * d))
         | TChapman _ _ o kc A qt top =>
             let mnll := fmax fmin_l mnl in
+            let top_l := if top <? f0 then adiabat_g g (q_g q) mnll else top in
             let dz := d - mnll in
-            let new := (top + ((qt / kc) * dz)) - (((A / (f2 * kc)) * dz) * dz) in
+            let new := (top_l + ((qt / kc) * dz)) - (((A / (f2 * kc)) * dz) * dz) in
             apply_op o old new
+        | THalfSpace _ _ o top bottom ridges vels =>
+            let bot := if bottom <? f0 then adiabat_g g (q_g q) d else bottom in
+            let '(v, dist) := ridge_distance_and_spreading sph ridges vels (nat_at_min_depth sph q (ds_min mn)) in
+            let age := dist / v in
+            let new := bot + (if f0 <? age then (top - bot) * ferfc (d / (f2 * fsqrt (g_kappa g * age))) else f0) in
+            apply_op o old new
+        | TPlateModel _ _ o top bottom ridges vels =>
+            let bot := if bottom <? f0 then adiabat_g g (q_g q) d else bottom in
+            let '(v, dist) := ridge_distance_and_spreading sph ridges vels (nat_at_min_depth sph q (ds_min mn)) in
+            let kap := g_kappa g in
+            let md := ds_max mx in
+            let age := dist / v in
+            let base := top + ((bot - top) * (d / md)) in
+            let expo fi := (((v * md) / (f2 * kap)) - fsqrt (((((v * v) * md) * md) / ((fofZ 4 * kap) * kap)) + (((fi * fi) * fpi) * fpi)))
+                           * ((v * age) / md) in
+            apply_op o old (plate_series 100 1 (bot - top) d md expo base)
+        | TPlateConstAge _ _ o top bottom age_s =>
+            let bot := if bottom <? f0 then adiabat_g g (q_g q) d else bottom in
+            let kap := g_kappa g in
+            let md := ds_max mx in
+            let base := top + ((bot - top) * (d / md)) in
+            let expo fi := (((((((- f1) * fi) * fi) * fpi) * fpi) * kap) * age_s) / (md * md) in
+            apply_op o old (plate_series 100 1 (bot - top) d md expo base)
         end
       else old
     else old.
